@@ -57,7 +57,7 @@ PROPS = {
         "coq": "Properties/C01.v",
         "coq_extra": ["Properties/C16e.v"],
         "pinchecks": ["PinChecks/PcBody_enf.v", "PinChecks/PcLiterals.v", "PinChecks/PcBody_fmacros.v", "PinChecks/PcEffector.v", "PinChecks/PcEffectorGen.v",
-                      "PinChecks/PcBody_fconvert.v", "PinChecks/PcBody_util.v", "PinChecks/PcStrFnGen.v"] + ["PinChecks/PcBody_model.v", "PinChecks/PcRoleGraph.v"],
+                      "PinChecks/PcBody_fconvert.v", "PinChecks/PcBody_util.v", "PinChecks/PcStrFnGen.v"] + ["PinChecks/PcBody_model.v", "PinChecks/PcStoreGen.v", "PinChecks/PcRoleGraph.v"],
         "gen": "c01",
         "level_text": "Coq theorem c01_enforce_is_perm: for EVERY model store, matcher AST, function table, request (any arity/types), "
                       "effect rule and flag the enforcement loop of the model equals the PERM reference (per-rule outcomes in stored order, "
@@ -94,7 +94,7 @@ PROPS = {
 }
 
 
-ENGINE_PINS = ["PinChecks/PcBody_enf.v", "PinChecks/PcBody_model.v", "PinChecks/PcInternalGen.v", "PinChecks/PcBody_adapters.v", "PinChecks/PcBody_fmgmtapi.v", "PinChecks/PcBody_frbacapi.v", "PinChecks/PcRoleGraph.v", "PinChecks/PcLiterals.v", "PinChecks/PcBody_fmacros.v"]
+ENGINE_PINS = ["PinChecks/PcBody_enf.v", "PinChecks/PcBody_model.v", "PinChecks/PcStoreGen.v", "PinChecks/PcInternalGen.v", "PinChecks/PcBody_adapters.v", "PinChecks/PcBody_fmgmtapi.v", "PinChecks/PcBody_frbacapi.v", "PinChecks/PcRoleGraph.v", "PinChecks/PcLiterals.v", "PinChecks/PcBody_fmacros.v"]
 ENGINE_NOTE = ("trusted: Coq kernel, extraction, harness; modelled not verified: hashlink LinkedHashSet/LinkedHashMap order (insert moves an existing entry "
                "to the back), petgraph adjacency order, rhai on the matcher fragment; adapters are modelled at the level of parsed lines (the CSV text level is "
                "C16/C09-text); every modelled function body is pinned by hash to the source it was aligned with")
@@ -336,7 +336,7 @@ PROPS.update({
     "C16": {
         "coq": "Properties/C16.v",
         "coq_extra": ["Properties/C16q.v", "Properties/C09text.v", "Properties/C16e.v"],
-        "pinchecks": ["PinChecks/PcBody_util.v", "PinChecks/PcStrFnGen.v", "PinChecks/PcBody_model.v", "PinChecks/PcBody_adapters.v", "PinChecks/PcLiterals.v"] + ["PinChecks/PcBody_ffrontend.v"],
+        "pinchecks": ["PinChecks/PcBody_util.v", "PinChecks/PcStrFnGen.v", "PinChecks/PcBody_model.v", "PinChecks/PcStoreGen.v", "PinChecks/PcBody_adapters.v", "PinChecks/PcLiterals.v"] + ["PinChecks/PcBody_ffrontend.v"],
         "gen": "c16",
         "level_text": "Coq theorems at BYTE level over Model/Csv.v and Model/Ini.v (validated against the real functions through the cfg(casbin_verif) hooks): "
                       "c16_parse_render_row (every csv-safe row under every spacing/quoting layout parses back, scanner fuel proved adequate), file level with "
